@@ -191,7 +191,18 @@ def run(ctx):
 
 MANIFEST = {
     "category": "proof",
-    "technique": "Coq invariants by induction over all executions of a typed model of raftkvs (any number of servers) + step-level differential correspondence against the real generated archetypes",
-    "text": "see notes/C08.md",
-    "level_note": "see notes/C08.md",
+    "technique": "Coq invariants by induction over all executions of a typed model of raftkvs (any number of servers, unbounded terms/logs) "
+                 "+ step-level differential correspondence against the real generated archetypes + implementation-side invariant oracle",
+    "text": ("Theorems in coq/Properties/C08.v, all closed under the global context and none partial: election_safety, log_matching, "
+             "leader_append_only, term_monotone, commit_monotone, plog_eq_log (any network discipline); leader_completeness (the property's "
+             "form, along executions), state_machine_safety and apply_log_ok (spec's invariants verbatim) under per-link FIFO delivery. "
+             "Refutations with witnesses replayed on the generated Go: the spec's LeaderCompleteness as written is false "
+             "(spec_leader_completeness_as_written_refuted), and under the spec's bag network leader completeness fails (bag_network_refuted). "
+             "The model (coq/C08/Model.v, every label of the 7 archetypes and every mapping macro) is tied to systems/raftkvs/raftkvs.go by running "
+             "the real generated archetypes step by step (harness/cmd/c08 on harness/steplib) on seeded adaptive random schedules and comparing "
+             "outcome and complete spec state after every step with the model evaluated by vm_compute; the Raft invariants are evaluated on every visited Go state."),
+    "level_note": ("Trusted: Coq kernel; the hand-written model (tie = differential execution: a change of raftkvs.go is caught when a walk or corpus "
+                   "schedule reaches it; 9 seeded mutants were all caught, one only after a scenario was added to the corpus); steplib/raftstep and the "
+                   "Python flattening as test infrastructure. Deployment resources (relaxed TCP mailboxes, LocalShared, timers, failure detector, "
+                   "persistent log) are replaced by spec-state resources; per-link FIFO is a hypothesis of leader_completeness, state_machine_safety, apply_log_ok."),
 }
